@@ -213,6 +213,38 @@ pub fn standard_roots(w: &World, s0: &Store, with_forged: bool) -> Vec<(String, 
     roots
 }
 
+/// roots with a bank in token-less repayment mode (the risk admin's write-off machinery)
+pub fn tokenless_roots(w: &World, s0: &Store) -> Vec<(String, HState)> {
+    use marginfi_type_crate::types::BankConfigOpt;
+    let nb = w.banks.len();
+    let mk = |s: Store| HState { s, clock_devs: 0, price_devs: 0, closes: vec![0; nb], forged: false };
+    let std = standard_roots(w, s0, false);
+    let get = |n: &str| std.iter().find(|(k, _)| k == n).map(|(_, h)| h.s.clone()).unwrap();
+    let allow = |s: &mut Store, b: usize| {
+        let r = crate::svm::process_tx(s, &crate::svm::Tx::one(ix::configure_bank(w.group, w.roles.admin, w.banks[b].key, BankConfigOpt { tokenless_repayments_allowed: Some(true), ..Default::default() }), &[w.roles.admin]));
+        assert!(r.ok(), "tokenless root: configure_bank");
+    };
+    let mut roots = vec![];
+    // RT: share values != 1 (R1); bank 0 allows token-less repayment; u1 owes it, u0 and the seeder lend it
+    let mut rt = get("R1");
+    allow(&mut rt, 0);
+    roots.push(("RT".to_string(), mk(rt.clone())));
+    // RTC: the debts were written off and the bank is complete: purging lenders is one step away
+    let mut rtc = rt.clone();
+    do_all(w, &mut rtc, &[Action::TokenlessRepay { u: 1, b: 0 }], "RTC");
+    if bank(&rtc, &w.banks[0].key).flags & marginfi_type_crate::constants::TOKENLESS_REPAYMENTS_COMPLETE == 0 {
+        do_all(w, &mut rtc, &[Action::ForceTokenlessComplete { b: 0 }], "RTC complete");
+    }
+    roots.push(("RTC".to_string(), mk(rtc)));
+    // RTD: only the seeder lends bank 0; u1 holds an empty but active balance there; bank complete
+    let mut rtd = get("R0");
+    do_all(w, &mut rtd, &[Action::Deposit { u: 1, b: 0, amt: 5, up_to_limit: None }, Action::Withdraw { u: 1, b: 0, amt: 5, all: false }], "RTD");
+    allow(&mut rtd, 0);
+    do_all(w, &mut rtd, &[Action::ForceTokenlessComplete { b: 0 }], "RTD complete");
+    roots.push(("RTD".to_string(), mk(rtd)));
+    roots
+}
+
 pub fn rep_json(r: &Report) -> Value {
     json!({
         "roots": r.roots,
